@@ -658,7 +658,7 @@ pub fn run(tier: &str) -> Run {
     let empty_cwd = root.join("cwd");
     let _ = std::fs::create_dir_all(&empty_cwd);
     let _ = std::env::set_current_dir(&empty_cwd);
-    let trees = build(&g, tier == "thorough");
+    let trees = build(&g, crate::util::wide(tier));
     let res = par_map(
         trees.len(),
         &|i| {
